@@ -3,6 +3,7 @@ pub mod config;
 pub mod output;
 
 use crate::analysis::CommandAnalyzer;
+use crate::build::generation_cache::GenerationCache;
 use crate::generators::create_generator;
 
 pub use cli::*;
@@ -144,6 +145,14 @@ pub fn generate_from_config(
         ));
     }
 
+    // A cache record left in the output directory by the CLI or the build script
+    // describes the files that are about to be replaced: drop it first and write
+    // a new one once the new files are in place, exactly as those two paths do.
+    // Otherwise a later non-forced run whose inputs match the OLD record (for
+    // example after an edit was reverted) reports "up to date" over the files
+    // written here.
+    GenerationCache::invalidate(&config.output_path)?;
+
     // Generate TypeScript models with discovered structs
     let mut generator = create_generator(validation);
     let generated_files = generator.generate_models(
@@ -153,6 +162,21 @@ pub fn generate_from_config(
         &analyzer,
         config,
     )?;
+
+    // A record also vouches for the dependency report when that is requested, and
+    // this path does not write the report: no record then, the next CLI or
+    // build-script run regenerates everything.
+    if !config.should_visualize_deps() {
+        let cache = GenerationCache::new_with_events(
+            &commands,
+            analyzer.get_discovered_structs(),
+            analyzer.get_discovered_events(),
+            config,
+        )?;
+        if let Err(e) = cache.save(&config.output_path) {
+            logger.warning(&format!("Failed to save generation cache: {}", e));
+        }
+    }
 
     if config.is_verbose() {
         logger.info(&format!(
